@@ -49,6 +49,8 @@ pub fn pick_size(ch: &mut dyn Chooser) -> usize {
             8 => 1024 + ch.choose(64),
             9 => 4096 + ch.choose(1000),
             10 => 2048,
+            // beyond the 64 KiB cap of original_capacity_repr (rare: these buffers are compared after every op)
+            11 if ch.choose(8) == 0 => 66_000 + ch.choose(70_000),
             _ => ch.choose(41),
         }
     }
